@@ -146,6 +146,27 @@ fn check_state(cal: &CompactCalendar, set: &BTreeSet<NaiveDate>, hist: &[NaiveDa
         acc.violate(viol("serialize_err", hist, json!({}), "serialize to Vec failed".into()));
         return ok;
     }
+    // the same through writers that accept only a few bytes per `write` call (allowed by the io::Write
+    // contract: pipes, sockets, nearly full buffers): exactly the same bytes must arrive
+    for chunk in [1usize, 3, 16, 47] {
+        struct Short(Vec<u8>, usize);
+        impl std::io::Write for Short {
+            fn write(&mut self, buf: &[u8]) -> std::io::Result<usize> {
+                let n = buf.len().min(self.1);
+                self.0.extend_from_slice(&buf[..n]);
+                Ok(n)
+            }
+            fn flush(&mut self) -> std::io::Result<()> {
+                Ok(())
+            }
+        }
+        let mut w = Short(Vec::new(), chunk);
+        let r = cal.serialize(&mut w);
+        if r.is_err() || w.0 != bytes {
+            acc.violate(viol("serialize_through_short_writer_differs", hist, json!({"chunk": chunk}), format!("serialize into a writer accepting {chunk} bytes per call: {} bytes arrived ({:?}), {} through a Vec", w.0.len(), r.err().map(|e| e.to_string()), bytes.len())));
+            return ok;
+        }
+    }
     let junk = [0xAAu8, 0x55, 0x01];
     let mut stream = bytes.clone();
     stream.extend_from_slice(&junk);
